@@ -410,24 +410,53 @@ func Drive(p Prop, tier string, opt Options) int {
 			a.inconclusive = append(a.inconclusive, fmt.Sprintf("case %d: worker died in batch but the case passed alone (not reproduced)", i))
 		}
 	}
-	for _, i := range a.hung {
-		results, _, died, hung, tailS := runChild(0, []int{i}, true)
-		if died && hung && hangIsViolation {
-			a.evals++
-			a.violations = append(a.violations, Violation{
-				Property: p.ID(), Class: "wedge",
-				Identity: p.ID() + "/wedge/" + wedgeSite(tailS),
-				Detail:   fmt.Sprintf("case %d exceeded its watchdog twice (second time alone in a fresh process); stuck in %s", i, wedgeSite(tailS)),
-				Case:     map[string]any{"seed": seed, "tier": tier, "index": i},
-				Witness:  capStr(tailS, 60000),
-			})
-		} else if died {
-			a.inconclusive = append(a.inconclusive, fmt.Sprintf("case %d: watchdog/crash on re-run alone", i))
-		} else {
-			for _, r := range results {
-				a.add(r)
+	// Hung cases are re-run alone (own fresh process), a few of them at a time; once
+	// three wedges are confirmed the remaining candidates are not re-run (every
+	// one costs a full watchdog period) and are listed as inconclusive.
+	{
+		const par, enough = 4, 3
+		var mu sync.Mutex
+		confirmed := 0
+		sem := make(chan struct{}, par)
+		var wgH sync.WaitGroup
+		for _, i := range a.hung {
+			mu.Lock()
+			skip := confirmed >= enough
+			mu.Unlock()
+			if skip {
+				mu.Lock()
+				a.inconclusive = append(a.inconclusive, fmt.Sprintf("case %d: exceeded its watchdog in its batch; not re-run alone because %d wedges were already confirmed in this run", i, enough))
+				mu.Unlock()
+				continue
 			}
+			sem <- struct{}{}
+			wgH.Add(1)
+			go func(i int) {
+				defer wgH.Done()
+				defer func() { <-sem }()
+				results, _, died, hung, tailS := runChild(0, []int{i}, true)
+				mu.Lock()
+				defer mu.Unlock()
+				if died && hung && hangIsViolation {
+					confirmed++
+					a.evals++
+					a.violations = append(a.violations, Violation{
+						Property: p.ID(), Class: "wedge",
+						Identity: p.ID() + "/wedge/" + wedgeSite(tailS),
+						Detail:   fmt.Sprintf("case %d exceeded its watchdog twice (second time alone in a fresh process); stuck in %s", i, wedgeSite(tailS)),
+						Case:     map[string]any{"seed": seed, "tier": tier, "index": i},
+						Witness:  capStr(tailS, 60000),
+					})
+				} else if died {
+					a.inconclusive = append(a.inconclusive, fmt.Sprintf("case %d: watchdog/crash on re-run alone", i))
+				} else {
+					for _, r := range results {
+						a.add(r)
+					}
+				}
+			}(i)
 		}
+		wgH.Wait()
 	}
 	if opt.Race {
 		var anchors []string
